@@ -223,6 +223,12 @@ func c09BGV(ctx *core.RunCtx, scaleInvariant bool) *c09Scheme {
 			ev(e).DropLevel(a, 1)
 			return nil
 		}},
+		{name: "rlwe.Automorphism", op1: []int{vNone}, ks: c09Rotations, needDeg1: true, callerSetsMeta: true, deg: degOne, call: func(e any, a *rlwe.Ciphertext, b any, k int, o *rlwe.Ciphertext) error {
+			return ev(e).Automorphism(a, bp.GaloisElement(k), o)
+		}},
+		{name: "rlwe.ApplyEvaluationKey", op1: []int{vNone}, needDeg1: true, callerSetsMeta: true, deg: degOne, call: func(e any, a *rlwe.Ciphertext, b any, k int, o *rlwe.Ciphertext) error {
+			return ev(e).ApplyEvaluationKey(a, &cc.evk.RelinearizationKey.EvaluationKey, o)
+		}},
 		{name: "rgsw.ExternalProduct", op1: []int{vRGSW}, needDeg1: true, needMaxLevel: true, callerSetsMeta: true, deg: degOne, call: func(e any, a *rlwe.Ciphertext, b any, k int, o *rlwe.Ciphertext) error {
 			e.(*c09Sys).rg.ExternalProduct(a, b.(*rgsw.Ciphertext), o)
 			return nil
@@ -503,6 +509,23 @@ func c09CKKS(ctx *core.RunCtx) *c09Scheme {
 			}
 			*o.MetaData = *res.MetaData
 			return nil
+		}},
+		{name: "RescaleTo", op1: []int{vNone}, ks: []int{0, 1, 2}, deg: degSame, call: func(e any, a *rlwe.Ciphertext, b any, k int, o *rlwe.Ciphertext) error {
+			// k = 0: the scale the input already has (no rescaling takes place); 1: one prime below; 2: as far as possible
+			min := a.Scale
+			switch k {
+			case 1:
+				min = a.Scale.Div(rlwe.NewScale(cp.Q()[a.Level()]))
+			case 2:
+				min = rlwe.NewScale(2)
+			}
+			return ev(e).RescaleTo(a, min, o)
+		}},
+		{name: "rlwe.Automorphism", op1: []int{vNone}, ks: c09Rotations, needDeg1: true, callerSetsMeta: true, deg: degOne, call: func(e any, a *rlwe.Ciphertext, b any, k int, o *rlwe.Ciphertext) error {
+			return ev(e).Automorphism(a, cp.GaloisElement(k), o)
+		}},
+		{name: "rlwe.ApplyEvaluationKey", op1: []int{vNone}, needDeg1: true, callerSetsMeta: true, deg: degOne, call: func(e any, a *rlwe.Ciphertext, b any, k int, o *rlwe.Ciphertext) error {
+			return ev(e).ApplyEvaluationKey(a, &cc.evk.RelinearizationKey.EvaluationKey, o)
 		}},
 		{name: "ScaleUp", op1: []int{vNone}, ks: []int{2, 3, 1024}, deg: degSame, call: func(e any, a *rlwe.Ciphertext, b any, k int, o *rlwe.Ciphertext) error {
 			return ev(e).ScaleUp(a, rlwe.NewScale(k), o)
